@@ -201,9 +201,9 @@ func c06r4(r *R) {
 	ps, _ := enumPaths(mt, 256, 1)
 	const sp = "net.SplitHostPort($1)"
 	order := []struct{ test, val, name string }{
-		{"$0.hostport[$1]#1", "$0.hostport[$1]#0", "exact host:port"},
-		{"$0.port[" + sp + "#1]#1", "$0.port[" + sp + "#1]#0", "*:port"},
-		{"$0.host[" + sp + "#0]#1", "$0.host[" + sp + "#0]#0", "host:*"},
+		{"$0.hostport[$1]#1", "$0.hostport[$1]", "exact host:port"},
+		{"$0.port[" + sp + "#1]#1", "$0.port[" + sp + "#1]", "*:port"},
+		{"$0.host[" + sp + "#0]#1", "$0.host[" + sp + "#0]", "host:*"},
 		{"($0.global != nil)", "$0.global", "*:*"},
 	}
 	for i, p := range ps {
